@@ -57,8 +57,8 @@ func (g *G) Weighted(ws []int, label string) int {
 // siblings that sort between `d` and `d/` ('-' 0x2d, '.' 0x2e < '/' 0x2f < '0');
 // names that are prefixes / substrings of each other; regexp metacharacters.
 var (
-	bases    = []string{"a", "b", "d", "ad", "lib", "test", "x", "é", "Z", "build", "r\xe9sum\xe9"}
-	suffixes = []string{"", "", "", ".go", ".c", "-old", "-data", "0", "1", " b", "(1)", "(", "+", "_", ".", "[", "ü", " ", "-", "+x", ".txt", ".log", ".tmp"}
+	bases    = []string{"a", "b", "d", "ad", "lib", "test", "x", "é", "Z", "build", "r\xe9sum\xe9", "rebuild", "mytest"}
+	suffixes = []string{"", "", "", ".go", ".c", "-old", "-data", "0", "1", " b", "(1)", "(", "+", "_", ".", "[", "ü", " ", "-", "+x", ".txt", ".log", ".tmp", ".tmpx", ".c++", "\xff", "%d", "%", "100%s"}
 	// IgnoreDirs / IgnoreExts are what a generated .goitignore may contain. Extensions are never
 	// used in directory names, so "ignored" is unambiguous in the generated domain.
 	IgnoreDirs = []string{"build", "lib-old", "test.c"}
@@ -134,7 +134,15 @@ func (g *G) IgnoreFile() []byte {
 		j := g.Int(0, i, "shuffle")
 		lines[i], lines[j] = lines[j], lines[i]
 	}
-	return []byte(strings.Join(lines, "\n") + "\n")
+	eol := "\n"
+	if g.Chance(25, "crlf") {
+		eol = "\r\n" // files written on another platform
+	}
+	out := strings.Join(lines, eol)
+	if g.Chance(80, "finalNewline") {
+		out += eol
+	}
+	return []byte(out)
 }
 
 // conflicts reports whether path p cannot coexist with q (one is a directory prefix of the other).
